@@ -1,4 +1,4 @@
-"""C13 - XSD is valid and never rejects valid data.  M: XsdDesign; G: XsdGen; R: run_c13; V: XsdTrace13."""
+"""C13 - XSD is valid and never rejects valid data.  M: XsdTranslate (+ XsdDesign in the thorough tier); G: XsdGen; R: run_c13; V: XsdTrace13."""
 from harness import xsd_check
 
 
@@ -9,4 +9,4 @@ def main() -> int:
 def xsd_check_design(ck) -> None:
     from harness import xsd_design
 
-    xsd_design.model_check(ck)
+    xsd_design.model_check(ck, "C13")
